@@ -131,8 +131,9 @@ Definition sym_ok (c : pcfg) (inl : bool) (name : list byte) : bool :=
   end.
 
 Definition float_ok (k : fkind) (txt : list byte) : bool :=
-  match resolve_token txt with OFlt k' t' => fkind_eqb k k' && bytes_eqb t' (map lower txt) | _ => false end &&
-  match txt with [] => false | b :: r => token_first b && forallb token_byte r end.
+  match resolve_token txt with OFlt k' _ => fkind_eqb k k' | _ => false end &&
+  match txt with [] => false | b :: r => token_first b && forallb token_byte r end &&
+  negb (is_t txt) && negb (is_nil_tok txt).
 
 Definition atom_ok (c : pcfg) (inl : bool) (x : obj) : bool :=
   match x with
